@@ -58,7 +58,7 @@ def judge(mods, ts, c, cm, expm, meta, cost_tot, metric, fixed, level, tails):
   pd, np, st = mods['pd'], mods['np'], mods['st']
   n, t = c['npre'], c['ntest'] + c['ncool']
   day0 = pd.Timestamp(base.BASE_DATE)
-  dates = [day0 + pd.Timedelta(days=d) for d in meta['assigned_days']]
+  dates = [day0 + pd.Timedelta(days=d * meta.get('date_step', 1)) for d in meta['assigned_days']]
   observed = [float(v) for v in (c['y'] if metric == 'tbr_response' else cost_tot[1])]
   frames = {'counterfactual': ts.counterfactual, 'pointwise_difference': ts.pointwise_difference,
             'cumulative_effect': ts.cumulative_effect}
@@ -295,7 +295,7 @@ def run(res):
       'the ordering clauses when the float verdict fails (counted as dropped_nongeneric)',
       'the fixed-cost scenario is cost zero in the pre-period and for the control group, positive for treatment in '
       'the test period; the variable-cost series of a case is another enumerated case of the same shape',
-      'frames use the default column names and labels; dates are consecutive calendar days from ' + base.BASE_DATE]
+      'frames use the default column names and labels; dates are daily, every other day or weekly from ' + base.BASE_DATE]
 
 
 def replay(res, blob):
